@@ -22,26 +22,6 @@ IMPL = r"impl\s+RouterSocket\b"
 
 GLUE = """
 pub struct Elapsed { pub x: u8 }
-// ---- ghost clock: `now` never goes back; reads() = every value returned by now(); timers() = for every timer armed, the latest
-// instant at which it can fire (sleep_until(dl): dl; sleep(d): arming instant + d, where the arming instant is whatever the
-// clock shows when the statement runs)
-pub struct Clock { pub now: Ghost<nat>, pub reads: Ghost<Seq<nat>>, pub timers: Ghost<Seq<nat>> }
-impl Clock {
-  #[verifier::external_body]
-  pub fn verif_now(&mut self) -> (r: Instant)
-    ensures r.ns() >= old(self).now@, final(self).now@ == r.ns(), final(self).reads@ == old(self).reads@.push(r.ns()), final(self).timers@ == old(self).timers@,
-      r.ns() <= 4_611_686_018_427_387_903nat * 1_000_000_000,
-  { unimplemented!() }
-  #[verifier::external_body]
-  pub async fn verif_sleep_until(&mut self, dl: Instant) -> (r: ())
-    ensures final(self).now@ >= old(self).now@, final(self).now@ >= dl.ns(), final(self).reads@ == old(self).reads@, final(self).timers@ == old(self).timers@.push(dl.ns()),
-  { unimplemented!() }
-  #[verifier::external_body]
-  pub async fn verif_sleep(&mut self, d: Duration) -> (r: ())
-    ensures final(self).now@ >= old(self).now@ + d.ns(), final(self).reads@ == old(self).reads@,
-      final(self).timers@.len() == old(self).timers@.len() + 1, final(self).timers@.drop_last() == old(self).timers@, final(self).timers@.last() >= old(self).now@ + d.ns(),
-  { unimplemented!() }
-}
 // ---- identity gate: pipe_finalized (DashMap) + held_ingress (mutex-protected map of per-pipe FIFOs) + held_count, abstract.
 // finalized() only ever grows (finalize_pipe inserts, nothing removes while the pipe is attached); epoch() counts finalize events.
 #[verifier::external_body]
@@ -159,6 +139,7 @@ parts = [
   Raw("prelude/msg.rs"),
   Raw("prelude/framebatch.rs"),
   Raw("prelude/time.rs"),
+  Raw("prelude/clock.rs"),
   Raw(text=GLUE, label="routerrecv-glue"),
   Fn(RS, "recv_logical_finalized", impl=IMPL, emit_impl="impl RouterSocket", sig_sub=[("&self", "&mut self"), ("std::time::Duration", "Duration")], attrs=ATTRS,
      requires=["rcvtimeo_opt matches Some(d) ==> d.ns() <= 2_147_483_647nat * 1_000_000"],   # what parse_timeout_option can produce (i32 milliseconds)
